@@ -27,6 +27,7 @@ func runC12(opt *Options) int {
 			{Name: "K6.chain", Pkg: "config", Harness: "VerifHarness_C12_Chain", Unwind: 64, Stub: stub, SetInts: ints},
 			{Name: "K6.wronglevel", Pkg: "config", Harness: "VerifHarness_C12_WrongLevel", Unwind: 64, Stub: stub},
 			kernelConverterLines("c12"),
+			{Name: "K8.convertersindependent", Pkg: "config", Harness: "VerifHarness_C12_ConvertersIndependent", Unwind: 200, E2E: "c12", Stub: []string{"(*github.com/jmattheis/goverter/pkgload.PackageLoader).GetOneRaw"}},
 			{Name: "K17.enumsetting", Pkg: "builder", Harness: "VerifHarness_C12_EnumSettingPerMethod", Unwind: 32},
 			{Name: "K6.methodlines", Pkg: "config", Harness: "VerifHarness_C12_MethodLines", Unwind: 64, E2E: "c12", Stub: []string{"github.com/jmattheis/goverter/method.Parse", "(*github.com/jmattheis/goverter/pkgload.PackageLoader).GetOne"}},
 			{Name: "K6.unknownname", Pkg: "config", Harness: "VerifHarness_C12_UnknownName", Unwind: 64, Stub: stub, SetInts: ints},
@@ -58,6 +59,12 @@ func runC12(opt *Options) int {
 	// a method-level goverter:context line holds for that method only
 	for _, c := range layerb.FamilySignature(false) {
 		if strings.Contains(c.ID, "signature/context_line_") || strings.Contains(c.ID, "signature/bare_") || strings.Contains(c.ID, "signature/context_names_") || strings.Contains(c.ID, "signature/struct_") {
+			sib = append(sib, c)
+		}
+	}
+	// enum settings written on a method that does not convert an enum to an enum are reported where they stand
+	for _, c := range layerb.FamilyEnum(false) {
+		if c.ExpectFail && strings.Contains(c.ID, "enum/fail_mapping_on_") {
 			sib = append(sib, c)
 		}
 	}
